@@ -1,0 +1,69 @@
+//go:build verif
+
+package alignment
+
+// Bounded stand-in for C07 on column-stored alignments without columns (the property's grids have 0..30 columns):
+// the row count of a column-stored alignment is read off its first column (alphabet.Columns.Rows), so an alignment
+// that has rows but no columns cannot be asked for its rows or extended. Recorded finding on the unchanged tree.
+
+import (
+	"fmt"
+	"testing"
+
+	"github.com/biogo/biogo/alphabet"
+	"github.com/biogo/biogo/seq"
+	"github.com/biogo/biogo/seq/sequtils"
+)
+
+func TestVerifBounded_C07_ZeroColumns(t *testing.T) {
+	cases, hit, example := 0, 0, ""
+	probe := func(what string, f func()) {
+		cases++
+		defer func() {
+			if r := recover(); r != nil {
+				hit++
+				if example == "" {
+					example = fmt.Sprintf("2x2 alignment truncated to the empty range [1,1), then %s: panic: %v", what, r)
+				}
+			}
+		}()
+		f()
+	}
+	mk := func() *Seq {
+		s, err := NewSeq("s", []string{"r0", "r1"}, [][]alphabet.Letter{[]alphabet.Letter("ac"), []alphabet.Letter("gt")}, alphabet.DNA, seq.DefaultConsensus)
+		if err != nil {
+			t.Fatal(err)
+		}
+		if err := sequtils.Truncate(s, s, 1, 1); err != nil {
+			t.Fatal(err)
+		}
+		return s
+	}
+	probe("Rows()", func() {
+		if r := mk().Rows(); r != 2 {
+			t.Fatalf("Rows() = %d, want 2", r)
+		}
+	})
+	probe("AppendColumns", func() {
+		s := mk()
+		if err := s.AppendColumns([]alphabet.QLetter{{L: 'a'}, {L: 'c'}}); err != nil {
+			t.Fatal(err)
+		}
+		if s.Len() != 1 || s.Seq[0][0] != 'a' || s.Seq[0][1] != 'c' {
+			t.Fatalf("AppendColumns on the empty alignment gave %v", s.Seq)
+		}
+	})
+	probe("AppendEach", func() {
+		s := mk()
+		if err := s.AppendEach([][]alphabet.QLetter{{{L: 'a'}}, {{L: 'c'}}}); err != nil {
+			t.Fatal(err)
+		}
+		if s.Len() != 1 {
+			t.Fatalf("AppendEach on the empty alignment gave %v", s.Seq)
+		}
+	})
+	if hit > 0 {
+		fmt.Printf("FINDING id=zero-columns cases=%d example=%q\n", hit, example)
+	}
+	fmt.Printf("BOUNDED name=C07.zero-columns cases=%d nontrivial=%d exhaustive=false domain=%q\n", cases, cases, "a 2x2 column-stored alignment truncated to an empty range, then Rows, AppendColumns, AppendEach")
+}
